@@ -1,4 +1,5 @@
 import HeimdallModel.Lemmas.UrlEscape
+import HeimdallModel.Lemmas.UpstreamUrl
 import HeimdallModel.Model.Repo
 import HeimdallModel.Lemmas.Trie
 /-!
@@ -297,6 +298,384 @@ theorem c08_slash_off_request_line (q : ReqView) (us : List PU) (hwf : ∀ u ∈
   rfl
 
 example : receivedPathL "/y/a%2Fb^".toList = "/y/a%2Fb%5E".toList := by decide
+
+/-! ## The path sent upstream
+
+For a rule with a backend (`forward_to`) `ruleImpl.Execute` hands `Backend.CreateURL` the request URL as the
+encoded-slash switch left it (`on`: raw path dropped; `off` / `no_decode`: raw path kept), `URLRewriter.Rewrite` cuts
+`strip_path_prefix` **literally** from the escaped path and puts `add_path_prefix` in front.  `upstreamPath` is what
+`EscapedPath()` of the result gives, i.e. what the proxy writes into the request line.
+
+The request views are `respell q raw` for a raw path given as units that may stand in a path (`PU.sendable`; the raw
+path of every request view is of that kind, `c08_request_view_sendable`). -/
+open Upstream
+
+theorem respell_raw (q : ReqView) (us : List PU) : (respell q (renderU us)).rawPath.toList = renderU us := by
+  simp [respell]
+
+theorem respell_path (q : ReqView) (us : List PU) (hwf : ∀ u ∈ us, u.wf) :
+    (respell q (renderU us)).path.toList = us.map PU.dec := by
+  simp [respell, pathUnescapeL_render us hwf]
+
+/-- the raw path of a request view (`receivedPathL` of whatever octets were received) consists of sendable units -/
+theorem c08_request_view_sendable (us : List PU) (hwf : ∀ u ∈ us, u.wf) : ∀ u ∈ us.map receivedUnit, u.sendable :=
+  receivedUnits_sendable us hwf
+
+/-- **From the request line**: the view of a request line `us` is `respell q` of the sendable units
+`us.map receivedUnit`, and two request lines that are re-spellings of one another have views whose raw paths are
+re-spellings of one another — so every `c08_upstream_…` statement above applies to request lines as received (octets a
+path may not contain included). -/
+theorem c08_upstream_request_line (q : ReqView) (us us' : List PU) (hwf : ∀ u ∈ us, u.wf) (h : Reenc us us') :
+    viewOfLine q us = respell q (renderU (us.map receivedUnit)) ∧
+    viewOfLine q us' = respell q (renderU (us'.map receivedUnit)) ∧
+    (∀ u ∈ us.map receivedUnit, u.sendable) ∧ Reenc (us.map receivedUnit) (us'.map receivedUnit) := by
+  refine ⟨?_, ?_, c08_request_view_sendable us hwf, h.received⟩
+  · simp only [viewOfLine]; rw [receivedPathL_render us hwf]
+  · simp only [viewOfLine]; rw [receivedPathL_render us' (h.wf hwf)]
+
+/-- **`off` / `no_decode`: the path sent upstream is the received spelling** — `add_path_prefix`, then the received raw
+path with the literal prefix cut, every escape as the client wrote it.  (`hcut` names what the literal cut leaves; see
+`c08_upstream_prefix_as_configured` and `c08_upstream_no_strip` for the two ways it is met.) -/
+theorem c08_upstream_kept_verbatim (esh : SlashHandling) (hesh : esh ≠ .on) (q : ReqView) (r : RewriteCfg)
+    (us as ws : List PU) (hus : ∀ u ∈ us, u.sendable) (hne : us ≠ []) (has : ∀ u ∈ as, u.sendable)
+    (hws : ∀ u ∈ ws, u.sendable) (hadd : r.add.toList = renderU as)
+    (hcut : cutPrefixL r.strip.toList (renderU us) = renderU ws) :
+    upstreamPath esh (some r) (respell q (renderU us)) = renderU as ++ renderU ws := by
+  rw [← renderU_append]
+  exact upstreamPath_kept esh hesh _ r us as ws (respell_raw q us) (respell_path q us (sendable_wf hus))
+    hus hne has hws hadd hcut
+
+/-- without `rewrite` the received spelling is sent as it is -/
+theorem c08_upstream_kept_verbatim_no_rewrite (esh : SlashHandling) (hesh : esh ≠ .on) (q : ReqView)
+    (us : List PU) (hus : ∀ u ∈ us, u.sendable) :
+    upstreamPath esh none (respell q (renderU us)) = renderU us :=
+  upstreamPath_kept_no_rewrite esh hesh _ us (respell_raw q us) (respell_path q us (sendable_wf hus)) hus
+
+/-- the literal cut when the request spells the prefix as it is configured -/
+theorem c08_upstream_prefix_as_configured (strip : String) (ps ws : List PU) (h : strip.toList = renderU ps) :
+    cutPrefixL strip.toList (renderU (ps ++ ws)) = renderU ws := by
+  rw [h, renderU_append, cutPrefixL_append]
+
+/-- no `strip_path_prefix`: nothing is cut -/
+theorem c08_upstream_no_strip (us : List PU) : cutPrefixL "".toList (renderU us) = renderU us := cutPrefixL_nil _
+
+/-- **`no_decode`: every encoded slash of the request is an encoded slash at the corresponding position of the path
+sent upstream**, in the hex case the client used: for a request `prefix ++ pre ++ %2F|%2f ++ post` the path sent is
+`add ++ pre ++ %2F|%2f ++ post`. -/
+theorem c08_upstream_no_decode_slash_stays_encoded (q : ReqView) (r : RewriteCfg) (ps pre post as : List PU) (x : Char)
+    (hx : x = 'F' ∨ x = 'f')
+    (hps : ∀ u ∈ ps, u.sendable) (hpre : ∀ u ∈ pre, u.sendable) (hpost : ∀ u ∈ post, u.sendable)
+    (has : ∀ u ∈ as, u.sendable) (hadd : r.add.toList = renderU as) (hstrip : r.strip.toList = renderU ps) :
+    upstreamPath .noDecode (some r) (respell q (renderU (ps ++ (pre ++ .esc '2' x :: post)))) =
+      renderU as ++ renderU pre ++ '%' :: '2' :: x :: renderU post := by
+  have hxh : isHex x = true := by rcases hx with rfl | rfl <;> decide
+  have hws : ∀ u ∈ pre ++ .esc '2' x :: post, u.sendable := by
+    intro u hu
+    rcases List.mem_append.mp hu with h | h
+    · exact hpre u h
+    · rcases List.mem_cons.mp h with rfl | h
+      · exact ⟨by decide, hxh⟩
+      · exact hpost u h
+  have hus : ∀ u ∈ ps ++ (pre ++ .esc '2' x :: post), u.sendable := by
+    intro u hu
+    rcases List.mem_append.mp hu with h | h
+    · exact hps u h
+    · exact hws u h
+  rw [c08_upstream_kept_verbatim .noDecode (by decide) q r _ as _ hus (by simp) has hws hadd
+    (c08_upstream_prefix_as_configured r.strip ps _ hstrip)]
+  simp [renderU_append, renderU_cons, PU.render]
+
+example : renderU [PU.lit '/', .lit 'a', .esc '2' 'f', .lit 'b'] = "/a%2fb".toList := by decide
+
+/-- **`on`: the path sent upstream is the default encoding of the decoded path** (prefix cut from, and
+`add_path_prefix` put in front of, that encoding): it does not depend on how the client spelled the path. -/
+theorem c08_upstream_on_canonical (q : ReqView) (r : RewriteCfg) (us : List PU) (ad wd : List Char)
+    (hwf : ∀ u ∈ us, u.wf) (hstar : us.map PU.dec ≠ ['*']) (hb : ∀ c ∈ ad ++ wd, c.toNat < 256)
+    (hadd : r.add.toList = escapePathL ad)
+    (hcut : cutPrefixL r.strip.toList (escapePathL (us.map PU.dec)) = escapePathL wd) :
+    upstreamPath .on (some r) (respell q (renderU us)) = escapePathL ad ++ escapePathL wd := by
+  rw [← escapePathL_append]
+  exact upstreamPath_on _ r _ ad wd (respell_path q us hwf) hstar hb hadd hcut
+
+theorem c08_upstream_on_canonical_no_rewrite (q : ReqView) (us : List PU) (hwf : ∀ u ∈ us, u.wf)
+    (hstar : us.map PU.dec ≠ ['*']) :
+    upstreamPath .on none (respell q (renderU us)) = escapePathL (us.map PU.dec) :=
+  upstreamPath_on_no_rewrite _ _ (respell_path q us hwf) hstar
+
+/-- the default encoding never contains an encoded slash … -/
+theorem c08_upstream_on_no_encoded_slash (p : List Char) (hb : ∀ c ∈ p, c.toNat < 256) :
+    containsEncodedSlashL (escapePathL p) = false := escapePathL_no_encoded_slash p hb
+
+/-- … **and under `on` every encoded slash of the request is the path separator `/` at the corresponding position of
+the path sent upstream** (no prefix cut; `add_path_prefix` in its default encoding, e.g. `/v2`). -/
+theorem c08_upstream_on_slash_decoded (q : ReqView) (r : RewriteCfg) (pre post : List PU) (x : Char) (ad : List Char)
+    (hx : x = 'F' ∨ x = 'f') (hpre : ∀ u ∈ pre, u.wf) (hpost : ∀ u ∈ post, u.wf)
+    (hbpre : ∀ u ∈ pre, u.byte) (hbpost : ∀ u ∈ post, u.byte) (hbad : ∀ c ∈ ad, c.toNat < 256)
+    (hadd : r.add.toList = escapePathL ad) (hstrip : r.strip = "") :
+    upstreamPath .on (some r) (respell q (renderU (pre ++ .esc '2' x :: post))) =
+      escapePathL ad ++ escapePathL (pre.map PU.dec) ++ '/' :: escapePathL (post.map PU.dec) := by
+  have hxh : isHex x = true := by rcases hx with rfl | rfl <;> decide
+  have hdx : PU.dec (.esc '2' x) = '/' := by rcases hx with rfl | rfl <;> decide
+  have hwf : ∀ u ∈ pre ++ .esc '2' x :: post, u.wf := by
+    intro u hu
+    rcases List.mem_append.mp hu with h | h
+    · exact hpre u h
+    · rcases List.mem_cons.mp h with rfl | h
+      · exact ⟨by decide, hxh⟩
+      · exact hpost u h
+  have hmap : (pre ++ .esc '2' x :: post).map PU.dec = pre.map PU.dec ++ '/' :: post.map PU.dec := by
+    simp [hdx]
+  have hstar : (pre ++ .esc '2' x :: post).map PU.dec ≠ ['*'] := by
+    rw [hmap]
+    intro e
+    cases hp : pre.map PU.dec with
+    | nil => rw [hp] at e; simp at e
+    | cons c t =>
+      rw [hp] at e
+      simp only [List.cons_append, List.cons.injEq] at e
+      have := e.2
+      cases t <;> simp at this
+  have hb : ∀ c ∈ ad ++ (pre.map PU.dec ++ '/' :: post.map PU.dec), c.toNat < 256 := by
+    intro c hc
+    rcases List.mem_append.mp hc with h | h
+    · exact hbad c h
+    · rcases List.mem_append.mp h with h | h
+      · exact decs_byte pre hbpre c h
+      · rcases List.mem_cons.mp h with rfl | h
+        · decide
+        · exact decs_byte post hbpost c h
+  have hcut : cutPrefixL r.strip.toList (escapePathL ((pre ++ .esc '2' x :: post).map PU.dec)) =
+      escapePathL (pre.map PU.dec ++ '/' :: post.map PU.dec) := by
+    rw [hstrip, hmap]; exact cutPrefixL_nil _
+  rw [c08_upstream_on_canonical q r _ ad _ hwf hstar hb hadd hcut, escapePathL_append]
+  have : escapePathL ('/' :: post.map PU.dec) = '/' :: escapePathL (post.map PU.dec) := by
+    simp [escapePathL, shouldEscape_slash]
+  rw [this]
+  simp
+
+/-- **Spelling invariance of the path sent upstream, setting `on`**: the whole upstream URL is the same for two
+spellings of one path, whatever `rewrite` says. -/
+theorem c08_upstream_on_spelling_invariant (be : BackendCfg) (q : ReqView) (us us' : List PU) (rq : String)
+    (hwf : ∀ u ∈ us, u.wf) (h : Reenc us us') :
+    upstreamUrl .on be (respell q (renderU us')) rq = upstreamUrl .on be (respell q (renderU us)) rq := by
+  have hp : (respell q (renderU us')).path = (respell q (renderU us)).path := by
+    simp only [respell]
+    rw [pathUnescapeL_render us hwf, pathUnescapeL_render us' (h.wf hwf), h.dec_eq]
+  unfold upstreamUrl upstreamPath
+  simp only [if_true, hp]
+  rfl
+
+/-- **Spelling invariance of the path sent upstream, settings `off` and `no_decode`**: if the literal cut of
+`strip_path_prefix` leaves re-spellings of one another (`hrw`; always so without `strip_path_prefix` and whenever both
+requests spell the prefix as configured, see the corollaries), then the two paths sent upstream are re-spellings of one
+another: they are equal once the escapes of unreserved octets are undone — so they agree on every encoded slash and on
+every other escape, position by position — and they decode to the same octets. -/
+theorem c08_upstream_spelling_invariant (esh : SlashHandling) (hesh : esh ≠ .on) (q : ReqView) (r : RewriteCfg)
+    (us us' as ws ws' : List PU) (hus : ∀ u ∈ us, u.sendable) (hne : us ≠ []) (has : ∀ u ∈ as, u.sendable)
+    (hws : ∀ u ∈ ws, u.sendable) (hadd : r.add.toList = renderU as)
+    (hcut : cutPrefixL r.strip.toList (renderU us) = renderU ws)
+    (hcut' : cutPrefixL r.strip.toList (renderU us') = renderU ws')
+    (hre : Reenc us us') (hrw : Reenc ws ws') :
+    normalizeL (upstreamPath esh (some r) (respell q (renderU us'))) =
+        normalizeL (upstreamPath esh (some r) (respell q (renderU us))) ∧
+      pathUnescapeL (upstreamPath esh (some r) (respell q (renderU us'))) =
+        pathUnescapeL (upstreamPath esh (some r) (respell q (renderU us))) := by
+  have hall : ∀ u ∈ as ++ ws, u.sendable := by
+    intro u hu
+    rcases List.mem_append.mp hu with h | h
+    · exact has u h
+    · exact hws u h
+  have hr2 : Reenc (as ++ ws) (as ++ ws') := Reenc.append_left as hrw
+  rw [c08_upstream_kept_verbatim esh hesh q r us as ws hus hne has hws hadd hcut,
+    c08_upstream_kept_verbatim esh hesh q r us' as ws' (hre.sendable hus) (hre.ne_nil hne) has (hrw.sendable hws) hadd hcut',
+    ← renderU_append, ← renderU_append]
+  constructor
+  · exact c08_normalize_reenc _ _ (sendable_wf hall) hr2
+  · rw [pathUnescapeL_render _ (sendable_wf hall), pathUnescapeL_render _ (hr2.wf (sendable_wf hall)), hr2.dec_eq]
+
+/-- corollary: no `strip_path_prefix` -/
+theorem c08_upstream_spelling_invariant_no_strip (esh : SlashHandling) (hesh : esh ≠ .on) (q : ReqView) (r : RewriteCfg)
+    (us us' as : List PU) (hus : ∀ u ∈ us, u.sendable) (hne : us ≠ []) (has : ∀ u ∈ as, u.sendable)
+    (hadd : r.add.toList = renderU as) (hstrip : r.strip = "") (hre : Reenc us us') :
+    normalizeL (upstreamPath esh (some r) (respell q (renderU us'))) =
+        normalizeL (upstreamPath esh (some r) (respell q (renderU us))) ∧
+      pathUnescapeL (upstreamPath esh (some r) (respell q (renderU us'))) =
+        pathUnescapeL (upstreamPath esh (some r) (respell q (renderU us))) :=
+  c08_upstream_spelling_invariant esh hesh q r us us' as us us' hus hne has hus hadd
+    (by rw [hstrip]; exact cutPrefixL_nil _) (by rw [hstrip]; exact cutPrefixL_nil _) hre hre
+
+/-- corollary: both requests spell the prefix as it is configured, and differ behind it -/
+theorem c08_upstream_spelling_invariant_prefix_as_configured (esh : SlashHandling) (hesh : esh ≠ .on) (q : ReqView)
+    (r : RewriteCfg) (ps ws ws' as : List PU) (hps : ∀ u ∈ ps, u.sendable) (hws : ∀ u ∈ ws, u.sendable)
+    (hne : ps ++ ws ≠ []) (has : ∀ u ∈ as, u.sendable) (hadd : r.add.toList = renderU as)
+    (hstrip : r.strip.toList = renderU ps) (hrw : Reenc ws ws') :
+    normalizeL (upstreamPath esh (some r) (respell q (renderU (ps ++ ws')))) =
+        normalizeL (upstreamPath esh (some r) (respell q (renderU (ps ++ ws)))) ∧
+      pathUnescapeL (upstreamPath esh (some r) (respell q (renderU (ps ++ ws')))) =
+        pathUnescapeL (upstreamPath esh (some r) (respell q (renderU (ps ++ ws)))) := by
+  have hus : ∀ u ∈ ps ++ ws, u.sendable := by
+    intro u hu
+    rcases List.mem_append.mp hu with h | h
+    · exact hps u h
+    · exact hws u h
+  exact c08_upstream_spelling_invariant esh hesh q r _ _ as ws ws' hus hne has hws hadd
+    (c08_upstream_prefix_as_configured r.strip ps ws hstrip) (c08_upstream_prefix_as_configured r.strip ps ws' hstrip)
+    (Reenc.append_left ps hrw) hrw
+
+/-- corollary: no `rewrite` at all -/
+theorem c08_upstream_spelling_invariant_no_rewrite (esh : SlashHandling) (hesh : esh ≠ .on) (q : ReqView)
+    (us us' : List PU) (hus : ∀ u ∈ us, u.sendable) (hre : Reenc us us') :
+    normalizeL (upstreamPath esh none (respell q (renderU us'))) =
+        normalizeL (upstreamPath esh none (respell q (renderU us))) := by
+  rw [c08_upstream_kept_verbatim_no_rewrite esh hesh q us hus,
+    c08_upstream_kept_verbatim_no_rewrite esh hesh q us' (hre.sendable hus)]
+  exact c08_normalize_reenc _ _ (sendable_wf hus) hre
+
+/-- non-vacuity: `/api/f/a%2Fb` and `/api/%66/a%2Fb`, prefix `/api` -/
+example : Reenc [PU.lit '/', .lit 'f', .lit '/', .lit 'a', .esc '2' 'F', .lit 'b']
+    [PU.lit '/', .esc '6' '6', .lit '/', .lit 'a', .esc '2' 'F', .lit 'b'] :=
+  .keep _ (.enc 'f' '6' '6' (by decide) (by decide) (by decide) (by decide) (.keep _ (.keep _ (.keep _ (.keep _ .nil)))))
+
+example : "/api".toList = renderU [PU.lit '/', .lit 'a', .lit 'p', .lit 'i'] ∧
+    ∀ u ∈ [PU.lit '/', .lit 'a', .lit 'p', .lit 'i'], u.sendable := by
+  refine ⟨by decide, ?_⟩
+  intro u hu
+  simp only [List.mem_cons, List.not_mem_nil, or_false] at hu
+  rcases hu with rfl | rfl | rfl | rfl <;> exact ⟨by decide, by decide⟩
+
+/-- **Observation (recorded, not part of C08): the cut of `strip_path_prefix` is literal.**  A request that spells an
+unreserved octet of the prefix percent-encoded selects the same rule, but its prefix is not cut; the property speaks
+about the matched rule, captured values, acceptance and encoded slashes in the path sent upstream, not about the prefix
+(design/C08.md, "literal prefix cut"). -/
+example : cutPrefixL "/api".toList "/api/x".toList = "/x".toList ∧
+    cutPrefixL "/api".toList "/%61pi/x".toList = "/%61pi/x".toList := by decide
+
+/-- scheme, host and query of the upstream URL do not depend on the path at all -/
+theorem c08_upstream_rest_independent_of_spelling (esh : SlashHandling) (be : BackendCfg) (q : ReqView)
+    (raw : List Char) (rq : String) :
+    (upstreamUrl esh be (respell q raw) rq).scheme = (upstreamUrl esh be q rq).scheme ∧
+    (upstreamUrl esh be (respell q raw) rq).host = (upstreamUrl esh be q rq).host ∧
+    (upstreamUrl esh be (respell q raw) rq).query = (upstreamUrl esh be q rq).query := by
+  refine ⟨?_, rfl, rfl⟩
+  unfold upstreamUrl
+  cases be.rewrite <;> rfl
+
+/-! ### At the level of the repository -/
+
+/-- the lookup selects the same entry of the routing tree for every spelling -/
+theorem c08_same_entry_for_every_spelling (s : Repo) (hasDefault : Bool) (q : ReqView) (us us' : List PU)
+    (hwf : ∀ u ∈ us, u.wf) (h : Reenc us us') :
+    s.findRule hasDefault (respell q (renderU us')) = s.findRule hasDefault (respell q (renderU us)) := by
+  have hwf' := h.wf hwf
+  have hempty : (String.ofList (renderU us')).isEmpty = (String.ofList (renderU us)).isEmpty := by
+    rw [ofList_isEmpty, ofList_isEmpty, renderU_isEmpty, renderU_isEmpty]
+    cases h <;> rfl
+  have hslash : containsEncodedSlash (String.ofList (renderU us')) = containsEncodedSlash (String.ofList (renderU us)) := by
+    unfold containsEncodedSlash
+    simp only [String.toList_ofList]
+    rw [containsEncodedSlashL_render us hwf, containsEncodedSlashL_render us' hwf', h.slash_eq]
+  have hpath : (respell q (renderU us')).path = (respell q (renderU us)).path := by
+    simp only [respell]
+    rw [pathUnescapeL_render us hwf, pathUnescapeL_render us' hwf', h.dec_eq]
+  have hkey : lookupPath (respell q (renderU us')) = lookupPath (respell q (renderU us)) := by
+    unfold lookupPath
+    simp only [respell] at hpath ⊢
+    simp only [hempty]
+    by_cases he : (String.ofList (renderU us)).isEmpty
+    · simp only [he, if_true]; exact hpath
+    · simp only [he, Bool.false_eq_true, if_false]
+      unfold normalizeUnreserved
+      simp only [String.toList_ofList]
+      rw [c08_normalize_reenc us us' hwf h]
+  have hm : repoMatcher (respell q (renderU us')) = repoMatcher (respell q (renderU us)) := by
+    funext v keys caps
+    unfold repoMatcher routeMatches
+    have h1 : schemeOk v.route (respell q (renderU us')) = schemeOk v.route (respell q (renderU us)) := rfl
+    have h2 : methodOk v.route (respell q (renderU us')) = methodOk v.route (respell q (renderU us)) := rfl
+    have h3 : hostOk v.route (respell q (renderU us')) = hostOk v.route (respell q (renderU us)) := rfl
+    have hall : v.route.pps.all (ppOk v.route.esh (respell q (renderU us')) keys caps) =
+        v.route.pps.all (ppOk v.route.esh (respell q (renderU us)) keys caps) := by
+      congr 1
+      funext pp
+      unfold ppOk
+      simp only [respell, hempty, hslash]
+      cases lookupKey keys caps pp.1 <;> rfl
+    rw [h1, h2, h3, hall]
+  unfold Repo.findRule
+  rw [hkey, hm]
+
+/-- **Forwarded alike**: whether a request is forwarded at all (the matched rule has a backend and did not answer with
+the precondition error) does not depend on the spelling. -/
+theorem c08_upstream_forwarded_alike (s : Repo) (hasDefault : Bool) (q : ReqView) (us us' : List PU) (rq : String)
+    (hwf : ∀ u ∈ us, u.wf) (h : Reenc us us') :
+    (s.upstream hasDefault (respell q (renderU us')) rq).isSome =
+      (s.upstream hasDefault (respell q (renderU us)) rq).isSome := by
+  have hslash : containsEncodedSlash (String.ofList (renderU us')) = containsEncodedSlash (String.ofList (renderU us)) := by
+    unfold containsEncodedSlash
+    simp only [String.toList_ofList]
+    rw [containsEncodedSlashL_render us hwf, containsEncodedSlashL_render us' (h.wf hwf), h.slash_eq]
+  unfold Repo.upstream
+  rw [c08_same_entry_for_every_spelling s hasDefault q us us' hwf h]
+  cases s.findRule hasDefault (respell q (renderU us)) with
+  | none => rfl
+  | default => rfl
+  | rule v ps =>
+    have hex : execPrelude v.esh (respell q (renderU us')) ps = execPrelude v.esh (respell q (renderU us)) ps := by
+      unfold execPrelude
+      simp only [respell, hslash]
+      rfl
+    simp only [hex]
+    cases execPrelude v.esh (respell q (renderU us)) ps <;> cases (s.ruleOf v).bind (·.cfg.backend) <;> rfl
+
+/-- **`off`: a request with an encoded slash is never forwarded** (and the default rule, which always runs with `off`,
+never forwards anything: it has no backend). -/
+theorem c08_upstream_off_never_forwarded (s : Repo) (d : Bool) (q : ReqView) (rq : String)
+    (h : containsEncodedSlash q.rawPath = true) (v : RVal) (ps : List (String × String))
+    (hf : s.findRule d q = .rule v ps) (hv : v.esh = .off) :
+    s.upstream d q rq = none := by
+  unfold Repo.upstream
+  simp [hf, execPrelude, hv, h]
+
+theorem c08_upstream_default_rule_never_forwards (s : Repo) (q : ReqView) (rq : String)
+    (hf : s.findRule true q = .default) : s.upstream true q rq = none := by
+  unfold Repo.upstream
+  simp [hf]
+
+/-- whatever is forwarded was not answered with the precondition error -/
+theorem c08_upstream_only_if_accepted (s : Repo) (d : Bool) (q : ReqView) (rq : String) (u : UpUrl)
+    (h : s.upstream d q rq = some u) : ∃ caps, (s.serve d q).exec = some (.ok caps) := by
+  unfold Repo.upstream at h
+  unfold Repo.serve
+  cases hf : s.findRule d q with
+  | none => simp [hf] at h
+  | default => simp [hf] at h
+  | rule v ps =>
+    simp only [hf] at h ⊢
+    cases he : execPrelude v.esh q ps with
+    | argument => simp [he] at h
+    | ok caps => exact ⟨caps, rfl⟩
+
+/-! ### The two constructors of the request view -/
+
+/-- **Both request contexts build the same view** of every request line the HTTP server accepts: same raw path, same
+decoded path — hence the same rule, captured values, acceptance and upstream URL (`Repo.serve` and `Repo.upstream` are
+functions of the view). -/
+theorem c08_request_contexts_agree (received : String) (v : String × String) (h : httpViewPath received = some v) :
+    envoyViewPath received = v := by
+  unfold httpViewPath at h
+  unfold envoyViewPath
+  cases h1 : pathUnescape received with
+  | none => simp [h1] at h
+  | some p =>
+    cases h2 : pathUnescape (receivedPath received) with
+    | none => simp [h1, h2] at h
+    | some p' =>
+      simp [h1, h2] at h
+      simp [h2, h]
+
+/-- non-vacuity: a request line the HTTP server accepts, and one only the Envoy context sees -/
+example : pathUnescapeL ['/', '%', '2', '5', '4', '1'] = some ['/', '%', '4', '1'] ∧
+    pathUnescapeL ['/', '%', 'z', 'z'] = none := by decide
 
 
 end Heimdall.Props.C08
